@@ -4,10 +4,10 @@ CONSTANTS
   Dims = {"cpu"}
   Nodes = {"n1", "n2"}
   PodNames = {"p1"}
-  ReqVals = {0, 3}
-  UsageVals = {2}
-  Times = {0, 2}
-  RIs = {1}
+  ReqVals = {0, 1, 3}
+  UsageVals = {0, 2}
+  Times = {0, 1, 2}
+  RIs = {1, 2}
   MaxClock = 1
   MCEstScheds <- OnlyOne
   MCEstInits <- OnlyNone
